@@ -605,12 +605,11 @@ func (m *Machine) runFrame(fr *frame) {
 				m.abort("step budget %d exceeded (possible non-termination) in %s", m.opts.StepBudget, fr.fn)
 			}
 			fr.cur = instr
+			m.funcs[fr.fn]++
 			if m.visitInstr(fr, instr) == kReturn {
-				m.funcs[fr.fn] += 0
 				return
 			}
 		}
-		m.funcs[fr.fn] += len(nonPhis)
 		// loop accounting: count visits to a block within this activation
 		if fr.loopCount == nil {
 			fr.loopCount = map[*ssa.BasicBlock]int{}
